@@ -54,6 +54,10 @@ EXTRA = [('zz-valid.container', '[Container]\nImage=localhost/extra\n'), ('zz-br
          ('zz-pod.pod', '[Pod]\n'), ('zz-nosection.kube', 'Yaml=x\n'), ('zz-empty.build', '')]
 
 
+DROPINS = ['[Unit]\nDescription=from the drop-in\n', '[Service]\nEnvironment=FROM_DROPIN=yes\n', '[Install]\nWantedBy=dropin.target\n',
+           '[Unit]\nAfter=dropin.service\n[Service]\nRestart=always\n']
+
+
 def run_set(placement, order=None):
     """placement: {relative path: text}; returns (exit, {unit file name: canonical printed text}, stderr, base)"""
     base = e2e.fresh_dir()
@@ -102,12 +106,24 @@ def oracle(ctx):
 
     def variants(fs):
         names = list(fs)
+        # some of the units have a (valid) drop-in of their own, present in every variant
+        drop = {n: rnd.choice(DROPINS) for n in names if rnd.random() < 0.35 and not fs[n].startswith(('[Oops', 'Key=before'))}
         base = {'d0/' + n: fs[n] for n in names}
+        base.update({'d0/' + n + '.d/10-own.conf': t for n, t in drop.items()})
         extra = dict(base)
         for n, t in rnd.sample(EXTRA, rnd.randint(1, 4)):
             extra['d0/' + n] = t
-        spread = {rnd.choice(['d0/', 'd1/', 'd0/sub/', 'd2/deep/er/']) + n: fs[n] for n in names}
-        order = list(range(len(names)))
+        # unrelated units whose drop-ins fail to load, one found early and one late in a sorted listing
+        for n in ('00-baddrop.container', 'zz-baddrop.container'):
+            extra['d0/' + n] = '[Container]\nImage=localhost/baddrop\n'
+            extra['d0/' + n + '.d/bad.conf'] = rnd.choice(['no equals sign\n', '[Unterminated\n', 'Key=before any section\n'])
+        spread = {}
+        for n in names:
+            d = rnd.choice(['d0/', 'd1/', 'd0/sub/', 'd2/deep/er/'])
+            spread[d + n] = fs[n]
+            if n in drop:
+                spread[d + n + '.d/10-own.conf'] = drop[n]
+        order = list(range(len(base)))
         rnd.shuffle(order)
         # a malformed file with the *same file name* as one of the units, in a search directory that is read earlier
         shadow = dict(base)
@@ -146,6 +162,8 @@ def oracle(ctx):
         for b in bad:
             if not any('ERROR' in l and b in l for l in r0[2].split('\n')):
                 fails.append(f'the failure of {b} is not logged with its path: {e2e.error_lines(r0[2])}')
+        if r1[0] != 1:
+            fails.append(f'exit status {r1[0]} although units with malformed drop-ins were added')
         if r1[0] != 1 and any(n in ('zz-broken.container', 'zz-unknown.volume', 'zz-noimage.container', 'zz-dangling.container', 'zz-nosection.kube') for n in [os.path.basename(p) for p in v[1]]):
             fails.append(f'exit status {r1[0]} although a failing file was added')
         if r4[0] != 1:
